@@ -60,7 +60,30 @@ ASSUMPTIONS = [
     "options range over password (user/owner), page_numbers, caching, laparams, output_type/codec utf-8; "
     "debug=True (mutates the root logger level) and output_dir (writes files) are outside the domain",
 ]
-STATEMENT_STATUS: Dict[str, str] = {}
+STATEMENT_STATUS: Dict[str, str] = {
+    "tables_inv": "proved (all histories): encoding tables = initial; every CMap/unicode-map cache entry = fresh load of its key",
+    "tables_only_grow": "proved (all histories): continuing a history never removes or alters a shared cache entry",
+    "cache_inv": "proved (all histories, every open iterator): object / object-stream / font cache entries = fresh computation",
+    "touch_observationally_neutral": "proved: in-place normalisation of cached objects is idempotent and invisible to reads",
+    "C12_extract_eq_spec": "proved: extract after ANY history = pages computed from fresh values only",
+    "C12_history": "proved (full statement of DESIGN section 6)",
+    "C12_history_output": "proved",
+    "C12_caching_irrelevant": "proved",
+    "C12_repeat": "proved",
+    "C12_page_at_a_time": "proved (uses selPages_single)",
+    "selPages_single": "proved (helper about page_numbers=[k])",
+    "C12_next_page": "proved: next() on an iterator after any interleaving = its next page from fresh values",
+    "C12_next_advances": "proved",
+    "C12_next_frame": "proved: next() on one iterator leaves every other iterator untouched",
+    "C12_open_todo": "proved",
+    "C12_interleaving": "proved: outputs addressed to iterator hid in ANY history = the same operations run alone from init",
+    "C12_cmap_copy": "proved: extending a private CMap built with usecmap leaves the shared CMap = fresh load",
+    "nocopy_cex": "proved counter-example: get_encoding without the copy leaks /Differences into later fonts",
+    "shared_cache_cex": "proved counter-example: a memo table answered under another document's fresh function returns the other document's value (font cache keyed by name / manager shared across documents)",
+    "not_modelled": "PSLiteralTable/PSKeywordTable interning, FONT_METRICS, PREDEFINED_COLORSPACE, settings.STRICT are checked on the "
+                    "implementation only (unchanged / grown only by names of the document); layout and interpreter are "
+                    "parameters of the theorems (abstract per-page result function)",
+}
 
 CLASSIFIERS: Dict[str, Any] = {}
 
@@ -89,7 +112,8 @@ def canon_item(it, out: List[Any]) -> None:
         return
     rec: List[Any] = [type(it).__name__, repr(tuple(it.bbox))]
     if isinstance(it, LTChar):
-        rec += [it.get_text(), it.fontname, repr(it.size), repr(tuple(it.matrix)), repr(it.adv), it.upright]
+        rec += [it.get_text(), it.fontname, repr(it.size), repr(tuple(it.matrix)), repr(it.adv), it.upright,
+                getattr(getattr(it, "ncs", None), "name", None), repr(getattr(it.graphicstate, "ncolor", None))]
     if isinstance(it, LTTextBox):
         rec.append(it.index)
     if isinstance(it, LTPage):
@@ -134,22 +158,25 @@ def canon_page(ltpage) -> List[str]:
     return [h, page_text(ltpage)]
 
 
-def sel_pages(npages: int, pages: Optional[List[int]]) -> List[int]:
+def sel_pages(npages: int, pages: Optional[List[int]], maxpages: int = 0) -> List[int]:
+    """maxpages is only generated together with pages=None (their combination is C04's subject)."""
     if not pages:
-        return list(range(npages))
+        return list(range(min(npages, maxpages) if maxpages else npages))
     return [k for k in range(npages) if k in pages]
 
 
 # ----------------------------------------------------------------------------- implementation adapters
 
-def impl_text(data: bytes, pw: str, pages, caching: bool, la: str) -> str:
+def impl_text(data: bytes, pw: str, pages, caching: bool, la: str, maxpages: int = 0) -> str:
     from pdfminer.high_level import extract_text
-    return extract_text(io.BytesIO(data), password=pw, page_numbers=pages, caching=caching, laparams=la_of(la))
+    return extract_text(io.BytesIO(data), password=pw, page_numbers=pages, caching=caching, laparams=la_of(la),
+                        maxpages=maxpages)
 
 
-def impl_pages_iter(data: bytes, pw: str, pages, caching: bool, la: str):
+def impl_pages_iter(data: bytes, pw: str, pages, caching: bool, la: str, maxpages: int = 0):
     from pdfminer.high_level import extract_pages
-    return extract_pages(io.BytesIO(data), password=pw, page_numbers=pages, caching=caching, laparams=la_of(la))
+    return extract_pages(io.BytesIO(data), password=pw, page_numbers=pages, caching=caching, laparams=la_of(la),
+                         maxpages=maxpages)
 
 
 def impl_tofp(data: bytes, pw: str, pages, caching: bool, la: str, otype: str) -> bytes:
@@ -500,6 +527,8 @@ def gen_history(rng, docs: List[P.Doc], las_per_doc: List[List[str]], length: in
         di = rng.randrange(len(docs))
         d = docs[di]
         o = gen_opts(rng, d, las_per_doc[di])
+        if r < 0.32 and not o["pages"] and d.npages > 1 and rng.random() < 0.25:
+            o["maxpages"] = rng.randint(1, d.npages)
         if r < 0.17:
             ops.append(["text", di, o])
         elif r < 0.32:
@@ -551,7 +580,7 @@ class Exec:
         if is_exc(b["single_pages"]):
             return b["single_pages"]
         out = []
-        for k in sel_pages(len(b["single_pages"]), o["pages"]):
+        for k in sel_pages(len(b["single_pages"]), o["pages"], o.get("maxpages", 0)):
             if is_exc(b["single_pages"][k]):
                 return b["single_pages"][k]          # the first page that raises ends the call
             out.extend(b["single_pages"][k])
@@ -562,7 +591,7 @@ class Exec:
         if is_exc(b["singles"]):
             return b["singles"]
         out = []
-        for k in sel_pages(len(b["singles"]), o["pages"]):
+        for k in sel_pages(len(b["singles"]), o["pages"], o.get("maxpages", 0)):
             if is_exc(b["singles"][k]):
                 return b["singles"][k]
             out.append(b["singles"][k])
@@ -585,7 +614,7 @@ class Exec:
                 _, di, o = op
                 doc = docs[di]
                 exp = self.expected_text(di, o)
-                got = impl_text(doc.data, o["pw"], o["pages"], o["caching"], o["la"])
+                got = impl_text(doc.data, o["pw"], o["pages"], o["caching"], o["la"], o.get("maxpages", 0))
                 if got != exp:
                     self.fail(idx, "extract_text differs from the fresh-process baseline", exp, got, tags)
             elif kind in ("pages", "single"):
@@ -594,7 +623,8 @@ class Exec:
                     o["pages"] = [op[3]]
                 doc = docs[di]
                 exp = self.expected_pages(di, o)
-                got = [canon_page(p) for p in impl_pages_iter(doc.data, o["pw"], o["pages"], o["caching"], o["la"])]
+                got = [canon_page(p) for p in impl_pages_iter(doc.data, o["pw"], o["pages"], o["caching"], o["la"],
+                                                              o.get("maxpages", 0))]
                 if got != exp:
                     self.fail(idx, "extract_pages differs page for page from the fresh-process baseline",
                               exp if is_exc(exp) else [e[1] for e in exp], [g[1] for g in got], tags)
@@ -841,11 +871,25 @@ def run_pool(ctx: C.Ctx, seed: str, size: int, nhist: int, hist_len: int) -> Non
                                    repr(a[la][key])[:400], repr(b[la][key])[:400], {"op": "baseline-order"}))
     check_baseline_self(ctx, seed, docs, base)
     rng = random.Random(seed + "/hist/" + str(ctx.seed) + "/" + str(ctx.boost))
+    # systematic part: every document right after every other document (all ordered pairs)
+    pair_ops: List[List[Any]] = []
+    for a in docs:
+        for b in docs:
+            if a is not b:
+                pair_ops.append(["text", a.idx, {"caching": True, "pages": None, "la": "default", "pw": a.user}])
+                pair_ops.append(["pages", b.idx, {"caching": rng.random() < 0.5, "pages": None, "la": las[b.idx][1],
+                                                  "pw": b.user}])
+    histories = [pair_ops]
     for hno in range(nhist):
+        histories.append(None)
+    for hno, ops in enumerate(histories):
         if not ctx.time_left():
             ctx.notes.append("time budget reached; stopped generating histories")
             break
-        ops = gen_history(rng, docs, las, hist_len)
+        if ops is None:
+            ops = gen_history(rng, docs, las, hist_len)
+        else:
+            ctx.branch("history:all-ordered-pairs")
         ex = run_history(ctx, seed, docs, base, ops)
         if ex is not None and ex.failure is not None:
             report_failure(ctx, seed, size, docs, base, ops, ex)
@@ -935,6 +979,8 @@ def model_lines(docs: List[P.Doc], ops: List[List[Any]], cm0: List[str], um0: Li
         if k in ("text", "pages", "tofp", "single"):
             o = op[2]
             sel = [op[3]] if k == "single" else (o["pages"] or [])
+            if o.get("maxpages") and not sel:
+                sel = list(range(o["maxpages"]))
             op_lines.append("extract %d %d %d %s" % (op[1], int(o["caching"]), len(sel), " ".join(map(str, sel))))
         elif k == "open":
             o = op[4]
